@@ -55,7 +55,9 @@ class _Found(Exception):
 class Accumulator:
     """Collects what a shard did.  Lives inside a worker process."""
 
-    def __init__(self, module, findings, deadline, raise_on=None):
+    def __init__(self, module, findings, deadline, raise_on=None, dedupe=False):
+        self.claim_dir = os.environ.get("VERIF_CLAIM_DIR") if (dedupe and raise_on is None) else None
+        self.duplicates = 0
         self.module = module
         self.findings = findings
         self.deadline = deadline
@@ -69,6 +71,7 @@ class Accumulator:
         self.samples = []
         self.viol = {}  # sig -> {"known": entry-or-None, "count": n, "cases": [..]}
         self.harness_errors = []
+        self.info_max = {}
         self.last_raised = None
         self.smallest_raised = None
 
@@ -79,6 +82,16 @@ class Accumulator:
         if self.time_up():
             self.skipped_time += 1
             return None
+        if self.claim_dir:
+            # expensive checks: identical cases drawn by several shards (Hypothesis' first example
+            # is the same for every seed) are evaluated once
+            try:
+                fd = os.open(os.path.join(self.claim_dir, case_hash(case)),
+                             os.O_CREAT | os.O_EXCL | os.O_WRONLY)
+                os.close(fd)
+            except FileExistsError:
+                self.duplicates += 1
+                return None
         try:
             verdict = self.module.check_case(case)
         except Exception as exc:  # noqa: BLE001
@@ -101,6 +114,10 @@ class Accumulator:
             self.subs[s] += 1
         if verdict.discard:
             self.discards[verdict.discard] += 1
+        for k, val in verdict.info.items():
+            if isinstance(val, (int, float)) and not isinstance(val, bool) and val == val:
+                if abs(val) > self.info_max.get(k, -1.0):
+                    self.info_max[k] = abs(float(val))
         if verdict.nontrivial and not verdict.discard:
             self.nontrivial_hashes.add(case_hash(case))
         if len(self.samples) < MAX_SAMPLES and (verdict.nontrivial or len(self.samples) < 3):
@@ -129,6 +146,7 @@ class Accumulator:
         return {
             "evaluations": self.evaluations,
             "skipped_time": self.skipped_time,
+            "duplicates": self.duplicates,
             "nontrivial_hashes": list(self.nontrivial_hashes),
             "labels": dict(self.labels),
             "discards": dict(self.discards),
@@ -136,6 +154,7 @@ class Accumulator:
             "samples": self.samples,
             "viol": self.viol,
             "harness_errors": self.harness_errors,
+            "info_max": self.info_max,
             "last_raised": self.last_raised,
             "smallest_raised": self.smallest_raised[1] if self.smallest_raised else None,
         }
@@ -171,8 +190,8 @@ def _shard(job):
     try:
         module = importlib.import_module(modname)
         findings = load_findings(module.PROPERTY_ID)
-        acc = Accumulator(module, findings, deadline, raise_on)
         budget = module.BUDGET[tier]
+        acc = Accumulator(module, findings, deadline, raise_on, dedupe=budget.get("dedupe", False))
         if kind == "enum":
             for i, case in enumerate(module.enumerate_cases(tier)):
                 if i % nshards != shard_idx:
@@ -233,6 +252,7 @@ def _merge(results):
     tot = {
         "evaluations": 0,
         "skipped_time": 0,
+        "duplicates": 0,
         "nontrivial_hashes": set(),
         "labels": Counter(),
         "discards": Counter(),
@@ -241,6 +261,7 @@ def _merge(results):
         "viol": {},
         "harness_errors": [],
         "fatal": [],
+        "info_max": {},
     }
     for r in results:
         if "fatal" in r:
@@ -248,11 +269,14 @@ def _merge(results):
             continue
         tot["evaluations"] += r["evaluations"]
         tot["skipped_time"] += r["skipped_time"]
+        tot["duplicates"] += r.get("duplicates", 0)
         tot["nontrivial_hashes"].update(r["nontrivial_hashes"])
         tot["labels"].update(r["labels"])
         tot["discards"].update(r["discards"])
         tot["subs"].update(r["subs"])
         tot["harness_errors"].extend(r["harness_errors"])
+        for k, val in r.get("info_max", {}).items():
+            tot["info_max"][k] = max(val, tot["info_max"].get(k, -1.0))
         for s in r["samples"]:
             s = dict(s)
             s["shard"] = r["shard"]
@@ -401,7 +425,16 @@ def main(argv=None):
                         (modname, tier, "given", i, nshards, seed * 1000 + 500 + i, per2,
                          deadline, None)
                     )
-        results = _pool_run(jobs, nproc)
+        import shutil
+        import tempfile
+
+        claim_dir = tempfile.mkdtemp(prefix="verif_claims_")
+        os.environ["VERIF_CLAIM_DIR"] = claim_dir
+        try:
+            results = _pool_run(jobs, nproc)
+        finally:
+            shutil.rmtree(claim_dir, ignore_errors=True)
+            os.environ.pop("VERIF_CLAIM_DIR", None)
         merged = _merge(results)
         harness_errors.extend(merged["harness_errors"])
         for f in merged["fatal"]:
@@ -465,9 +498,11 @@ def main(argv=None):
         "discard_fraction": (n_disc / evaluations) if evaluations else 0.0,
         "replay_files_run": replay_evals,
         "cases_skipped_by_time_cap": skipped,
+        "duplicate_cases_not_reevaluated": (merged["duplicates"] if merged else 0),
         "inconclusive_time_cap": bool(skipped),
         "known_findings_hit": {k: v["count"] for k, v in known_hit.items()},
         "tolerances": jsonable(getattr(module, "TOLERANCES", {})),
+        "max_abs_of_measured_quantities": (merged["info_max"] if merged else {}),
         "exhaustive": False,
         "exhaustive_subdomains": getattr(module, "EXHAUSTIVE_SUBDOMAINS", []),
         "engine": getattr(module, "ENGINE", "hypothesis"),
